@@ -68,9 +68,24 @@ def run(tier):
         limit = rnd.choice([1, 2, 3, 7, 127, 255, -1, -1])
         frag = rnd.choice([0, 1, 7, 1000, 16384]) if len(B) < 5000 else rnd.choice([0, 1000, 16384])
         opts = rnd.choice(["", "", "quoted=1", "extra=1", "leadcrlf=0", "lower=1", "boundary=3d6b6a416f9b5"])
-        sc = delta.Scenario("p%d" % i, wd, B, T, sources=[A] if A is not None else [], limit=limit, frag=frag, fetch_opts=opts,
+        # real servers pick a new multipart boundary for every response
+        ropts = {r: "boundary=%s%dq" % (rnd.choice(["bnd", "x-", "7f3a", "B+"]), r) for r in range(40)} if (i % 2 == 0 and "boundary=" not in opts) else None
+        sc = delta.Scenario("p%d" % i, wd, B, T, sources=[A] if A is not None else [], limit=limit, frag=frag, fetch_opts=opts, round_opts=ropts,
                             name="%s pair, target %s, limit %d, frag %d %s" % (kind, tk, limit, frag, opts))
         sc.write_files(); scs.append(sc)
+    # deterministic: several multipart responses in ONE session, each with its own boundary (limits 2 and 3 over six
+    # separate missing extents), fed whole and in fragments
+    for comp in (0, 2):
+        cB = [b""] + [corpus.text(rnd, 40 + 7 * k) for k in range(12)]
+        cA = [b""] + [cB[k] for k in range(1, 13) if k % 2 == 0]
+        kw = dict(comp_type=comp, hash_type=1, chunk_hash_type=3, level=3)
+        A2 = ref.build_file(cA, **kw)[0]; B2 = ref.build_file(cB, **kw)[0]
+        for limit in (2, 3):
+            for frag in (0, 9):
+                ro = {r: "boundary=resp%dz%s" % (r, "+" if r % 2 else "") for r in range(40)}
+                sc = delta.Scenario("p%d" % len(scs), wd, B2, b"", sources=[A2], limit=limit, frag=frag, round_opts=ro,
+                                    name="six separate missing extents, limit %d, a new boundary per response, frag %d, comp %d" % (limit, frag, comp))
+                sc.write_files(); scs.append(sc)
     nproc = 12
     parts = ["".join(s.script() for s in scs[i::nproc]) for i in range(nproc)]
     evs = [e for part in common.run_driver_parallel(parts, "plain", timeout=2400) for e in part]
@@ -93,6 +108,15 @@ def run(tier):
         if hB.hash_type != 1:
             B = ref.rebuild_from_parse(hB, B)            # (keep as is; zckdl handles SHA-1/SHA-256 overall types)
         tk, T = initial_target(rnd, A, B)
+        if i < 6:      # make sure every kind of pre-existing target is tried by the shipped downloader
+            tk = ["overlong", "equalB", "old", "empty", "partialB", "garbage"][i]
+            T = {"overlong": B + corpus.rand(rnd, 5000), "equalB": B, "old": (A if A is not None else B[: len(B) // 2]), "empty": b"",
+                 "partialB": initial_target(random.Random(i), A, B)[1], "garbage": corpus.rand(rnd, len(B) + 77)}[tk]
+            if tk == "partialB":
+                b_ = bytearray(B)
+                for (a_, z_) in delta.extents(hB)[1::2]:
+                    b_[a_:z_] = bytes(z_ - a_)
+                T = bytes(b_)
         root = os.path.join(wd, "srv%d" % i); cwd = os.path.join(wd, "cl%d" % i); os.makedirs(root); os.makedirs(cwd)
         open(os.path.join(root, "B.zck"), "wb").write(B)
         if A is not None: open(os.path.join(cwd, "A.zck"), "wb").write(A)
